@@ -23,3 +23,24 @@ Proof. exact spacing_layout_free. Qed.
 Theorem C06_literal_gap_is_read :
   gap_fn (TT_TextLiteral TK_SingleLine) (TT_Op OK_LBrack) None 0 <> gap_fn (TT_TextLiteral TK_SingleLine) (TT_Op OK_LBrack) None 1.
 Proof. vm_compute. discriminate. Qed.
+
+From PasfmtVerif Require Import Model.FmtData Proofs.FmtDataProofs.
+
+(* two layout strings give the same data iff they have the same number of line breaks and the same width after the last one: nothing else of the original layout survives *)
+Theorem C06_layout_data_iff :
+  forall (a b : bytes) (ign : bool),
+  layout_ws a ->
+  layout_ws b ->
+  count_lf a <= 65535 ->
+  count_lf b <= 65535 ->
+  N.of_nat (length (after_last_lf a)) <= 65535 ->
+  N.of_nat (length (after_last_lf b)) <= 65535 ->
+  fmt_of_ws a ign = fmt_of_ws b ign <->
+  count_lf a = count_lf b /\ length (after_last_lf a) = length (after_last_lf b).
+Proof. exact fmt_of_ws_relayout_iff. Qed.
+
+(* newlines_before = 0 exactly when the gap contains no LF *)
+Theorem C06_no_break_iff_no_lf :
+  forall (ws : bytes) (ign : bool),
+  f_nl (fmt_of_ws ws ign) = 0 <-> contains_byte 10 ws = false.
+Proof. exact fmt_of_ws_nl_zero_iff. Qed.
